@@ -58,6 +58,17 @@ func c17Make(goType string, value bool, pub, upd time.Time, id string) ap.Item {
 	p.Elem().FieldByName("Type").SetString(string(vocab.DefaultType[goType]))
 	p.Elem().FieldByName("Published").Set(reflect.ValueOf(pub))
 	p.Elem().FieldByName("Updated").Set(reflect.ValueOf(upd))
+	// the other instants an object can carry say nothing about when it was published: they are set far away from both
+	// (later for one half of the items, earlier for the other) and must not move the item
+	far := time.Date(2093, 1, 2, 3, 4, 5, 0, time.UTC)
+	if (len(id)+len(goType))%2 == 1 {
+		far = time.Date(1953, 1, 2, 3, 4, 5, 0, time.UTC)
+	}
+	for _, n := range []string{"StartTime", "EndTime", "Deleted"} {
+		if f := p.Elem().FieldByName(n); f.IsValid() && f.Type() == reflect.TypeOf(far) {
+			f.Set(reflect.ValueOf(far))
+		}
+	}
 	if value {
 		return p.Elem().Interface().(ap.Item)
 	}
